@@ -117,7 +117,10 @@ def run_c10(pid, tier):
         # third run on the same OUT_DIR after one template stopped parsing: it must lose its function and its declaration
         tm = [p for p, k, _ in entries if k == "tmpl"]
         victim = rng.choice(tm) if tm and rng.random() < 0.6 else None
-        if victim: steps += [('W', 't/' + victim, "@(now broken"), ('R', [('c', 't')])]
+        if victim and rng.random() < 0.5:
+            # the broken version arrives with the modification time of the good one (cp -p / restore), older than the generated file
+            steps = tree_steps(entries) + [('R', [('c', 't')]), ('R', [('c', 't')]), ('T', 't/' + victim, "@(now broken"), ('R', [('c', 't')])]
+        elif victim: steps += [('W', 't/' + victim, "@(now broken"), ('R', [('c', 't')])]
         broke.append(victim)
         trees.append(entries); scen.append(steps)
     rs = run_keyed(scen)
@@ -494,7 +497,7 @@ def run_c18(pid, tier):
         sc = [('W', 't/' + name, src)] + [('W', 't/' + f, c) for f, c in reversed(sib)] + [('M', 't/zz')] + [('R', [('c', 't')])]
         sd = [('W', 'some/where/else/q/' + name, src), ('W', 'some/where/else/other.rs.html', '@()x'), ('R', [('c', 'some/where/else')]), ('R', [('c', 'some/where/else')])]
         # statics: same set of names in different orders
-        names = rng.sample(["a.css", "b.js", "c-d.png", "e.f.txt", "g_h.woff", "0.ico"], rng.randint(2, 5))
+        names = rng.sample(["a.css", "b.js", "c-d.png", "e.f.txt", "g_h.woff", "0.ico", "site.css", "site2.css", "siteA.css", "site_.css", "site-x.css"], rng.randint(2, 6))
         if rng.random() < 0.4:
             # published names that agree on their first 40 / 70 bytes
             lp = "the-long-common-prefix-of-several-file-names" + ("-and-then-some-more-of-the-same" if rng.random() < 0.5 else "")
